@@ -195,6 +195,11 @@ def get_field_type_from_annotations(some_class: type, field_name: str) -> type:
 
     # Get the global_ns in the module starting from the deepest base until the module with the field_name last definition.
     global_ns = {}
+    # `get_type_hints(some_class)` below evaluates the annotations of *every* class in the MRO with these globals, so
+    # the names of all the modules involved have to be visible (lowest priority), not only those of the modules up to
+    # the one that defines `field_name`.
+    for base_cls in reversed(some_class.mro()):
+        global_ns.update(sys.modules[base_cls.__module__].__dict__)
     classes_to_iterate = list(
         dropwhile(
             lambda cls: field_name not in getattr(cls, "__annotations__", {}), some_class.mro()
